@@ -35,6 +35,7 @@ type Run struct {
 	Err error // infrastructure-level failure of the run (not a violation by itself)
 
 	clients map[int]*client
+	invAt   map[[2]int]int64 // (script id, op index) -> invocation time
 }
 
 type client struct {
@@ -65,7 +66,7 @@ func Execute(p *plan.Plan, k *simrt.Kernel) *Run {
 	}
 	k.ConfigureYields(p.Yield.ArmPermille, p.Yield.ParkPermille, usd(p.Yield.MaxUs))
 	k.SetYieldsEnabled(false)
-	r := &Run{P: p, K: k, N: n, C: cluster.New(k, n, p.Cluster), clients: map[int]*client{}}
+	r := &Run{P: p, K: k, N: n, C: cluster.New(k, n, p.Cluster), clients: map[int]*client{}, invAt: map[[2]int]int64{}}
 	// form the initial cluster: members are created at distinct instants
 	for i := 0; i < p.Cluster.Members; i++ {
 		if err := r.C.Start(i, 60*time.Second); err != nil {
@@ -208,6 +209,30 @@ func (r *Run) runScript(pi int, sc *plan.Script) {
 			<-ch
 		}
 		eff := sc
+		if len(op.Tag) == 4 && (op.Tag[:3] == "emb" || op.Tag[:3] == "raw") {
+			// embo/embn/rawo/rawn: entry on the owner / on a non-owner of the key, resolved now
+			k0 := op.Key
+			if k0 == "" && len(op.Keys) > 0 {
+				k0 = op.Keys[0]
+			}
+			dmn := op.DM
+			if dmn == "" {
+				dmn = r.P.DMap
+			}
+			owner := r.OwnerOf(dmn, k0)
+			m := owner
+			if op.Tag[3] == 'n' {
+				run := r.C.Running()
+				for j := range run {
+					cand := run[(j+op.M)%len(run)].Idx
+					if cand != owner {
+						m = cand
+						break
+					}
+				}
+			}
+			op.Tag, op.M = op.Tag[:3], m
+		}
 		if op.Tag == "emb" || op.Tag == "cc" || op.Tag == "raw" {
 			// per-op entry point: a client of that kind (and member) private to this script
 			code := map[string]int{"emb": 1, "cc": 2, "raw": 3}[op.Tag]
@@ -220,6 +245,9 @@ func (r *Run) runScript(pi int, sc *plan.Script) {
 		rec := plan.Rec{Phase: pi, Client: sc.ID, Idx: i, Op: op}
 		rec.Inv = r.K.Stamp()
 		rec.TInv = int64(r.K.Now())
+		r.mu.Lock()
+		r.invAt[[2]int{sc.ID, i}] = rec.TInv
+		r.mu.Unlock()
 		r.doOp(eff, i, &op, &rec)
 		rec.Ret = r.K.Stamp()
 		rec.TRet = int64(r.K.Now())
@@ -286,9 +314,22 @@ func Classify(err error) string {
 	return "other:" + s
 }
 
-func putOpts(op *plan.Op) []olric.PutOption {
+// absExpiry turns the relative EXAT/PXAT offsets of a plan op into the absolute
+// wall-clock millisecond that is sent: EXAT is rounded up to a whole second (the
+// protocol carries it as float seconds), PXAT to a whole millisecond.
+func absExpiry(op *plan.Op) int64 {
+	now := time.Now().UnixNano() / 1e6
+	switch {
+	case op.EXAT > 0:
+		return (now + op.EXAT + 999) / 1000 * 1000
+	case op.PXAT > 0:
+		return now + op.PXAT
+	}
+	return 0
+}
+
+func putOpts(op *plan.Op, abs int64) []olric.PutOption {
 	var o []olric.PutOption
-	now := time.Now()
 	if op.EX > 0 {
 		o = append(o, olric.EX(msd(op.EX)))
 	}
@@ -296,10 +337,10 @@ func putOpts(op *plan.Op) []olric.PutOption {
 		o = append(o, olric.PX(msd(op.PX)))
 	}
 	if op.EXAT > 0 {
-		o = append(o, olric.EXAT(time.Duration(now.Add(msd(op.EXAT)).UnixNano())))
+		o = append(o, olric.EXAT(time.Duration(abs*1e6)))
 	}
 	if op.PXAT > 0 {
-		o = append(o, olric.PXAT(time.Duration(now.Add(msd(op.PXAT)).UnixNano())))
+		o = append(o, olric.PXAT(time.Duration(abs*1e6)))
 	}
 	if op.NX {
 		o = append(o, olric.NX())
@@ -336,7 +377,8 @@ func (r *Run) doOp(sc *plan.Script, idx int, op *plan.Op, rec *plan.Rec) {
 	}
 	switch op.K {
 	case "put":
-		rec.Err = Classify(dm.Put(ctx, op.Key, op.Val, putOpts(op)...))
+		rec.Int = absExpiry(op)
+		rec.Err = Classify(dm.Put(ctx, op.Key, op.Val, putOpts(op, rec.Int)...))
 	case "get":
 		g, err := dm.Get(ctx, op.Key)
 		rec.Err = Classify(err)
@@ -453,7 +495,6 @@ func (r *Run) doRaw(c *client, idx int, op *plan.Op, rec *plan.Rec) {
 		dmn = r.P.DMap
 	}
 	var args []any
-	now := time.Now()
 	switch op.K {
 	case "put":
 		args = []any{"DM.PUT", dmn, op.Key, op.Val}
@@ -463,11 +504,12 @@ func (r *Run) doRaw(c *client, idx int, op *plan.Op, rec *plan.Rec) {
 		if op.PX > 0 {
 			args = append(args, "PX", op.PX)
 		}
+		rec.Int = absExpiry(op)
 		if op.EXAT > 0 {
-			args = append(args, "EXAT", strconv.FormatFloat(float64(now.Add(msd(op.EXAT)).UnixNano())/1e9, 'f', -1, 64))
+			args = append(args, "EXAT", rec.Int/1000)
 		}
 		if op.PXAT > 0 {
-			args = append(args, "PXAT", now.Add(msd(op.PXAT)).UnixNano()/1e6)
+			args = append(args, "PXAT", rec.Int)
 		}
 		if op.NX {
 			args = append(args, "NX")
@@ -668,6 +710,14 @@ func (r *Run) doCtl(sc *plan.Script, op *plan.Op, rec *plan.Rec) {
 	switch op.K {
 	case "ctl.sleep":
 		time.Sleep(msd(op.Dur))
+	case "ctl.sleep_rel":
+		// sleep until <invocation time of op Ref of this script> + Dur ms
+		r.mu.Lock()
+		base := r.invAt[[2]int{sc.ID, op.Ref}]
+		r.mu.Unlock()
+		if d := time.Duration(base) + msd(op.Dur) - r.K.Now(); d > 0 {
+			time.Sleep(d)
+		}
 	case "ctl.join":
 		if err := r.C.Start(op.M, 60*time.Second); err != nil {
 			rec.Err = "other:" + err.Error()
